@@ -99,6 +99,9 @@ def record_set(rng, k, small=False):
         recs.append(s)
     if all(len(r) == 0 for r in recs):
         recs[0] = rand_seq(rng, k)
+    # a record without any base (a header directly followed by the next header), anywhere in the file
+    if rng.random() < 0.15:
+        recs.insert(rng.randrange(len(recs) + 1), "")
     return recs
 
 
